@@ -481,6 +481,34 @@ def check_case(case, res: Result):
             first, again = results[0][1], results[-1][1]
             if first != again:
                 vs.append(make_violation("impure:same-command-parsed-again-differs", {**cj, "command": results[0][0]}, first, again))
+        if not vs and (len(text) + len(case["commands"])) % 3 == 0:
+            # (every third case) the same purity through load_database: a database with all commands must give the
+            # concatenation of what single-command databases give
+            from codebasin import config
+
+            def load(entries, tag):
+                p = os.path.join(s.dir, f"db-{tag}.json")
+                with open(p, "w") as f:
+                    json.dump(entries, f)
+                return config.load_database(p, s.dir)
+
+            ents = []
+            for i, cmd in enumerate(case["commands"]):
+                src = f"src{i}.c"
+                with open(os.path.join(s.dir, src), "w") as f:
+                    f.write("int x;\n")
+                ents.append({"directory": s.dir, "file": src, "arguments": [cmd["argv0"], *cmd["argv"], "-c", src]})
+            try:
+                together = load(ents, "all")
+                apart = []
+                for i, e in enumerate(ents):
+                    apart += load([e], f"one{i}")
+                if together != apart:
+                    bad = next(i for i, (a, b) in enumerate(zip(together + [None] * len(apart), apart + [None] * len(together))) if a != b)
+                    vs.append(make_violation("impure:database-differs-from-single-command-databases", cj, apart[bad] if bad < len(apart) else None, together[bad] if bad < len(together) else None))
+                res.labels["database-purity-compared"] += 1
+            except Exception as e:
+                vs.append(make_violation(f"load_database:exception:{type(e).__name__}", cj, "loads", f"{type(e).__name__}: {e}"))
     # implicit == explicit
     if not vs:
         for cmd in case["commands"][:2]:
